@@ -22,7 +22,9 @@ CONSTANTS Schema,     \* sequence of [n, k, m]: the data columns
           AllowRollback,
           AllowDelete,
           AllowInsert,
-          LateInitSel \* BOOLEAN: the selection may be taken at any point of the body (else right after Begin)
+          LateInitSel,\* BOOLEAN: the selection may be taken at any point of the body (else right after Begin)
+          Rep,        \* the actor replaying on R
+          ReplayAtEnd \* BOOLEAN: replay only once every writer is done (replays commute with the primary's steps)
 
 ColNames == {Schema[i].n : i \in DOMAIN Schema}
 DescOf(n) == LET i == CHOOSE i \in DOMAIN Schema : Schema[i].n = n IN [k |-> Schema[i].k, m |-> Schema[i].m]
@@ -98,13 +100,14 @@ CommitStep(t) ==
 
 ReplayStep ==
   /\ Replica
+  /\ ReplayAtEnd => \A w \in Writers : txn[w].pc = "done"
   /\ LET i == st["R"].rp + 1 IN
      /\ i \in DOMAIN st["P"].strm
-     /\ ReplayBegin("rep", "R", st["P"].strm[i], i)
+     /\ ReplayBegin(Rep, "R", st["P"].strm[i], i)
 
 MCNext ==
   \/ \E t \in Writers : WriterStep(t) \/ CommitStep(t)
-  \/ (Replica /\ (ReplayStep \/ CommitStep("rep")))
+  \/ (Replica /\ (ReplayStep \/ CommitStep(Rep)))
 
 MCSpec == MCInit /\ [][MCNext]_vars
 
@@ -117,6 +120,12 @@ Converged ==
       => (Excused({"D-replay-all-blocks", "D-swap-append", "D-dead-delete", "D-write-dead-row", "D-failed-insert-applied",
                    "D-enum-collision", "D-inflight-insert-visible"})
           \/ Project(st["R"]) = Project(st["P"])))
+
+\* C02: a transaction that ends without committing anything (error, or nothing buffered) leaves no trace:
+\* the collection is exactly as before except that the offsets it had reserved are free again
+RollbackNoTrace ==
+  [][\A t \in Writers : (txn[t].pc = "body" /\ txn'[t].pc = "done") =>
+        st'["P"] = [st["P"] EXCEPT !.fill = @ \ txn[t].reserved]]_vars
 
 \* C15: each committed transaction emits exactly one commit per block it changed (checked when all are done):
 \* the number of emitted commits equals the sum, over committed transactions, of their dirty blocks. In this
@@ -139,6 +148,9 @@ TrigA == { [n |-> "ta", col |-> "a"] }
 TrigAS == { [n |-> "ta", col |-> "a"], [n |-> "ts", col |-> "s"] }
 NoDefs == {}
 AllLayouts == SUBSET Offsets
+Layout02 == {{0, 2}}
+LayoutSome == {{0, 2}, {0, 1, 2}, {1}}
 
 View == <<st, txn, used, dev>>
+WriterSymmetry == Permutations(Writers)
 =============================================================================
